@@ -212,5 +212,84 @@ def body(case):
     return out
 
 
+def gen_text(r):
+    """A schema as TEXT (YAML or JSON): every parse of the same text creates fresh strings."""
+    d = G.hostile_doc(r, 3)
+    rules = []
+    for _ in range(r.between(1, 3)):
+        rl = G.rule_for(r, d, mode="typed", cast_p=40, cond_depth=1, max_len=3, with_doc=True, meaningful=True, jsonable=True)
+        # labelled parts (labels are strings that each parse creates anew)
+        parts = [p.replace(label=r.choice(["L", "lbl", "my label"])) if isinstance(p, Part) and r.coin(60) else p for p in rl.path.parts]
+        if r.coin(50):
+            parts.append(Part(r.choice(["map", "list", "mol"]), label=r.choice(["L", "lbl"])))
+        rules.append(rl.replace(path=PathT(parts)))
+    sp = SP.Spelling(r)
+    sp.force_names = True
+    spec = {"rules": [SP.rule_spec(rl, sp) for rl in rules]}
+    return spec, r.choice(["yaml", "yaml-file", "json"]), d
+
+
+def body_text(case):
+    import io, json, os, tempfile
+    from ruamel.yaml import YAML
+
+    spec, how, doc = case
+    out = Outcome()
+    ns = build.ns()
+    out.nontrivial = any(isinstance(p, dict) and "label" in p for rl in spec["rules"] for p in rl["path"])
+    out.label(f"text:{how}")
+    try:
+        if how == "json":
+            text = json.dumps(spec["rules"])
+            json.loads(text)
+        else:
+            buf = io.StringIO()
+            YAML(typ="safe").dump(spec, buf)
+            text = buf.getvalue()
+            if exact(YAML(typ="safe").load(text)) != exact(spec):
+                out.label("text-precheck-rejected")
+                out.nontrivial = False
+                return out
+    except Exception:
+        out.label("text-precheck-rejected")
+        out.nontrivial = False
+        return out
+    out.sample = text[:400]
+
+    def parse_once():
+        with warnings.catch_warnings():
+            warnings.simplefilter("ignore")
+            if how == "json":
+                return ns.s.Schema.from_json_like(json.loads(text))
+            if how == "yaml":
+                return ns.s.Schema.from_yaml(text)
+            with tempfile.TemporaryDirectory() as td:
+                fn = os.path.join(td, "s.yaml")
+                with open(fn, "w", encoding="utf-8") as fh:
+                    fh.write(text)
+                return ns.s.Schema.from_yaml_file(fn)
+
+    try:
+        a = parse_once()
+        b = parse_once()
+    except Exception as e:
+        out.exc("parse-text", e)
+        return out
+    try:
+        same = (a == b) is True and (b == a) is True
+    except Exception as e:
+        out.exc("equality", e)
+        return out
+    if not same:
+        out.add("reparse-equal", f"reparse-equal|text|{how}", f"two parses of the same {how} text give unequal schemas: {show(a.rules,250)} / {show(b.rules,250)}")
+        return out
+    if behaviour("schema", a, doc) != behaviour("schema", b, doc):
+        out.add("reparse-equal", f"reparse-behaviour|text|{how}", "two parses of the same text behave differently")
+    return out
+
+
 def tests(tier):
-    return [TestSpec("reparse", gen_case, body, {"quick": 3000, "thorough": 250000}, tape=2048, fuzz={"thorough": 40000})]
+    return [
+        TestSpec("reparse", gen_case, body, {"quick": 3000, "thorough": 250000}, tape=2048, fuzz={"thorough": 40000}),
+        TestSpec("reparse-text", gen_text, body_text, {"quick": 400, "thorough": 30000}, tape=2048),
+    ]
